@@ -95,8 +95,9 @@ std::string readBack(const World& W)
 
 // ---------------------------------------------------------------- observed calls
 const char* OBS10[] = {"covmat", "covmat-optim", "covmat-symoptim", "kriging", "xvalid", "vario", "vario-fit", "migrate", "frombox", "addrandom",
-                       "simgauss", "simtub", "simtub-nc", "simfft", "kcalc", "kcalc", "kriging", "kcalc", "kcalc", "kriging"};
-const int NOBS10 = 20;
+                       "simgauss", "simtub", "simtub-nc", "simfft", "kcalc", "kcalc", "kriging", "kcalc", "kcalc", "kriging",
+                       "vario-gen", "vario-gen", "vario-dirs"};
+const int NOBS10 = 23;
 const char* OBS13[] = {"simtub", "simtub-nc", "simfft", "gibbs", "simtub", "simtub-nc", "simpgs", "simpgs", "gibbs"};
 const int NOBS13 = 9;
 
@@ -291,6 +292,73 @@ Observed observe(World& W, const Op& op, int seedShift, Ctx* c, bool judge13, lo
     }
     else d.s("null-vario");
     delete vp;
+    o.digest = d.hex();
+    return o;
+  }
+  if (k == "vario-gen" || k == "vario-dirs")
+  {
+    // self-contained: a small 2-D grid filled by a fixed recurrence (no library generator involved)
+    //  vario-gen : generalized variogram of order 1..3 along several grid directions
+    //  vario-dirs: ordinary calculations (variogram, covariance, madogram ...) in several directions of the plane
+    int nd0 = getDefaultSpaceDimension();
+    defineDefaultSpace(ESpaceType::RN, 2);
+    DbGrid* g = DbGrid::create({7 + (int)(a % 4), 6 + (int)(b % 3)});
+    VectorDouble z(g->getSampleNumber());
+    uint64_t s = (uint64_t)seed * 2654435761u + 17;
+    for (auto& v : z) { s = s * 6364136223846793005ULL + 1442695040888963407ULL; v = (double)((s >> 33) % 2000) / 100. - 10.; }
+    g->addColumns(z, "zg", ELoc::Z);
+    VarioParam vp;
+    ECalcVario calc = ECalcVario::VARIOGRAM;
+    if (k == "vario-gen")
+    {
+      static const int INC[4][2] = {{1, 0}, {0, 1}, {1, 1}, {2, 1}};
+      int ndir = 1 + (int)(a % 4);
+      for (int id = 0; id < ndir; id++)
+      {
+        DirParam* dp = DirParam::createFromGrid(g, 3 + (int)(b % 2), {INC[(id + b) % 4][0], INC[(id + b) % 4][1]});
+        vp.addDir(*dp);
+        delete dp;
+      }
+      calc = (b % 3 == 0) ? ECalcVario::GENERAL1 : (b % 3 == 1 ? ECalcVario::GENERAL2 : ECalcVario::GENERAL3);
+    }
+    else
+    {
+      VarioParam* q = VarioParam::createMultiple(2 + (int)(a % 3), 4, 1.);
+      vp = *q;
+      delete q;
+      static const int CK[] = {0, 1, 9, 2, 3, 4}; // variogram, covariance, non-centred covariance, covariogram, madogram, rodogram
+      calc = ECalcVario::fromValue(CK[b % 6]);
+    }
+    Vario* v = Vario::computeFromDb(vp, g, calc);
+    if (v)
+    {
+      d.i(v->getDirectionNumber());
+      for (int id = 0; id < v->getDirectionNumber(); id++)
+      {
+        d.vd(v->getAllGg(id));
+        d.vd(v->getAllHh(id));
+        d.vd(v->getAllSw(id));
+      }
+      // oracle that needs no sibling: a direction computed alone equals the same direction computed in the batch
+      for (int id = 0; id < v->getDirectionNumber(); id++)
+      {
+        VarioParam one;
+        one.addDir(vp.getDirParam(id));
+        Vario* w = Vario::computeFromDb(one, g, calc);
+        if (!w) { d.s("null-single"); continue; }
+        bool same = true;
+        VectorDouble g1 = v->getAllGg(id), g2 = w->getAllGg(0), s1 = v->getAllSw(id), s2 = w->getAllSw(0), h1 = v->getAllHh(id), h2 = w->getAllHh(0);
+        if (g1.size() != g2.size() || s1.size() != s2.size() || h1.size() != h2.size()) same = false;
+        for (size_t q = 0; same && q < g1.size(); q++) same = sameBits(g1[q], g2[q]) && sameBits(s1[q], s2[q]) && sameBits(h1[q], h2[q]);
+        if (!same && c) c->violation("C10|direction-depends-on-batch|" + k, "direction " + std::to_string(id) + " of a " + std::to_string(v->getDirectionNumber()) +
+                                     "-direction calculation (" + std::string(calc.getKey()) + ") differs from the same direction computed alone");
+        delete w;
+      }
+      delete v;
+    }
+    else d.s("null-vario");
+    delete g;
+    defineDefaultSpace(ESpaceType::RN, nd0);
     o.digest = d.hex();
     return o;
   }
@@ -751,7 +819,8 @@ void perturb(World& W, const Op& op, Ctx& c)
   {
     World O;
     otherWorld(O, a, W.spec.ndim);
-    VarioParam* vp = VarioParam::createOmniDirection(5, 1.);
+    // several directions (the calculation leaves its working direction behind) when the space allows it
+    VarioParam* vp = (W.spec.ndim == 2 && a % 2) ? VarioParam::createMultiple(2 + (int)(b % 3), 5, 1.) : VarioParam::createOmniDirection(5, 1.);
     Vario* v = Vario::computeFromDb(*vp, O.dbin, ECalcVario::VARIOGRAM);
     delete v;
     delete vp;
@@ -1167,6 +1236,13 @@ struct WorldWorkload : Workload
   {
     RunResult rr;
     std::map<std::string, std::string> oa, ob;
+    if (getenv("SIMKIT_INPROCESS_PERTURBED"))
+    {
+      // debugging aid (gdb, valgrind): the perturbed sibling alone, in this process
+      Ctx c;
+      execWorld(p, c, false, id);
+      return rr;
+    }
     ChildOutcome A = runChild([&](Ctx& c) { execWorld(p, c, true, id); }, 30);
     foldChild(A, rr, &oa);
     Violation v;
